@@ -352,6 +352,33 @@ class Panic(Exception):
     pass
 
 
+_CANON = None
+
+
+def param_name(F, fn, i, default=None):
+    """name by which parameter i of fn is known to the evaluator's top-level exploration (reviewed name by position, else today's)"""
+    canon = _canon_params().get(fn)
+    h = F.hir(fn)
+    ps = (h or {}).get("params", [])
+    if canon is not None and len(canon) == len(ps) and i < len(canon) and canon[i]:
+        return canon[i]
+    if i < len(ps) and ps[i].get("k") == "bind" and ps[i].get("name"):
+        return ps[i]["name"]
+    return default or "_%d" % i
+
+
+def _canon_params():
+    global _CANON
+    if _CANON is None:
+        import json
+        import os
+        try:
+            _CANON = json.load(open(os.path.join(os.path.dirname(os.path.abspath(__file__)), "param_names.json")))
+        except Exception:
+            _CANON = {}
+    return _CANON
+
+
 class _Return(Exception):
     def __init__(self, v):
         self.v = v
@@ -471,7 +498,15 @@ class Evaluator:
         env = {}
         params = h.get("params", [])
         if args is None:
-            args = [Sym(("param", p.get("name", "_%d" % i))) if p.get("k") == "bind" else Sym(("param", "_%d" % i)) for i, p in enumerate(params)]
+            # parameters are known to the rules by the names they had on the reviewed tree, by position: renaming a parameter (not part of
+            # a Rust signature) must not change what a rule sees
+            canon = _canon_params().get(fn) if top else None
+            if canon is not None and len(canon) != len(params):
+                canon = None
+            args = []
+            for i, p in enumerate(params):
+                nm = (canon[i] if canon is not None and canon[i] else None) or (p.get("name", "_%d" % i) if p.get("k") == "bind" else "_%d" % i)
+                args.append(Sym(("param", nm)))
         for p, a in zip(params, args):
             if isinstance(a, Sym) and p.get("k") == "bind" and p.get("ty"):
                 self.types.setdefault(a.t, p["ty"])
@@ -781,6 +816,11 @@ class Evaluator:
         if isinstance(base, St):
             if name in base.f:
                 return base.f[name]
+            # auto-deref (`impl Deref for Outer { Target = Inner }`, `fn common(&self) -> &Inner { self }`): the field of the single
+            # struct-valued member that has it
+            inner = [v_ for v_ in base.f.values() if isinstance(v_, St) and name in v_.f]
+            if len(inner) == 1:
+                return inner[0].f[name]
             return Sym(("field", term(base), name))
         if isinstance(base, tuple) and name.isdigit() and int(name) < len(base):
             return base[int(name)]
@@ -1768,6 +1808,9 @@ class Evaluator:
                 return Iter(("call", name, (it.src,) + tuple(o[0] for o in it.ops) + tuple(term(a) for a in args[1:])))
             ap = lambda f, xs: self.apply(f, xs, depth, node)  # noqa: E731
             if name in ("any", "all", "find", "find_map", "position", "try_for_each", "for_each", "next", "last", "nth"):
+                if name in ("any", "all", "find", "position") and len(args) > 1 and isinstance(args[1], (Clo, FnRef)):
+                    # the per-element predicate is recorded so that a rule can fold it (e.g. over the code-point domain)
+                    self.path.events.append(Event("pred", None, [Sym(it.src), args[1]], None, node.get("sp") if node else None, name=name))
                 items = self.items_of(it)
                 if name == "next" or name == "last" or name == "nth":
                     return V("Some", (items[0],)) if items else V("None")
